@@ -52,8 +52,10 @@ def type_payload(rng, t):
     return rng.randbytes(rng.choice([0, 0, 4, 8, rng.randrange(0, 24)]))
 
 
-def handshake(ctx, kex, strict_c, strict_s, edit, short_timeout=False):
-    """one handshake through the relay; returns per-peer observations"""
+def handshake(ctx, kex, strict_c, strict_s, edit, short_timeout=False, follows=None):
+    """one handshake through the relay; returns per-peer observations.  follows = (which side lies, "wrong"|"right"):
+    that side's KEXINIT claims first_kex_packet_follows, with a first-listed kex method that is / is not the one that
+    gets negotiated (it offers one method more than the other side)."""
     from paramiko import Transport
     from tests._loop import LoopSocket
 
@@ -63,8 +65,16 @@ def handshake(ctx, kex, strict_c, strict_s, edit, short_timeout=False):
     for x in (c2, s1):
         x.settimeout(0.05)
     disabled = {"kex": [k for k in Transport._preferred_kex if k != kex]}
-    tc = Transport(c1, disabled_algorithms=disabled, strict_kex=strict_c)
-    ts = Transport(s2, disabled_algorithms=disabled, strict_kex=strict_s)
+    dis_c = dis_s = disabled
+    other_kex = "diffie-hellman-group14-sha256"
+    if follows:
+        wide = {"kex": [k for k in Transport._preferred_kex if k not in (kex, other_kex)]}
+        dis_c, dis_s = (wide, disabled) if follows[0] == "client" else (disabled, wide)
+    tc = Transport(c1, disabled_algorithms=dis_c, strict_kex=strict_c)
+    ts = Transport(s2, disabled_algorithms=dis_s, strict_kex=strict_s)
+    if follows:
+        L.rewrite_kexinit(tc if follows[0] == "client" else ts, follows=True,
+                          kex_first=other_kex if follows[1] == "wrong" else kex)
     if KEX[kex] == "gex":
         from paramiko.primes import ModulusPack
 
@@ -296,6 +306,14 @@ def run(ctx):
                         jobs.append((kex, sc, ss, ("inject", nm, d, pos)))
                     if (sc == ss and (kex == kexes[0] or ctx.thorough)):
                         jobs.append((kex, sc, ss, ("delete", "-", d, pos)))
+    # a peer whose KEXINIT claims "first kex packet follows" (right or wrong guess), and one stray message right behind
+    # that KEXINIT: it is judged like any other
+    for liar, d in (("client", "c2s"), ("server", "s2c")):
+        for guess in ("wrong", "right"):
+            for nm in ("IGNORE", "DEBUG", "UNIMPLEMENTED", "UNKNOWN", "TYPE:80"):
+                ed = ("inject", nm, d, 1) if not nm.startswith("TYPE:") else \
+                    ("inject", nm, d, 1, type_payload(rng, 80).hex())
+                jobs.append((kexes[0], True, True, ed, (liar, guess)))
     # packets that have no type at all: empty payload (minimal, short and long padding) — well framed, so they advance
     # the sequence number, but there is nothing to dispatch
     for d in ("c2s", "s2c"):
@@ -325,7 +343,8 @@ def run(ctx):
                 nxt[0] += 1
             if i >= len(jobs):
                 return
-            kex, sc, ss, ed = jobs[i]
+            kex, sc, ss, ed = jobs[i][:4]
+            fol = jobs[i][4] if len(jobs[i]) > 4 else None
 
             def edit(direction, idx, t, pkt, ed=ed):
                 if ed is not None and ed[1].startswith(("TYPE:", "SHAPE:")) and direction != ed[2] and t not in KEX_TYPES:
@@ -347,7 +366,7 @@ def run(ctx):
                 # edits that put plaintext into the encrypted stream (or drop NEWKEYS) leave a reader waiting for a
                 # garbage length: bounded waits there
                 risky = bool(ed and (ed[0] == "delete" or ed[1] == "DUPLICATE"))
-                results[i] = handshake(ctx, kex, sc, ss, edit, short_timeout=risky)
+                results[i] = handshake(ctx, kex, sc, ss, edit, short_timeout=risky, follows=fol)
             except Exception as e:  # noqa
                 errors.append((jobs[i], e))
 
@@ -367,10 +386,13 @@ def run(ctx):
     for i, (job, res) in enumerate(zip(jobs, results)):
         if res is None:
             continue
-        kex, sc, ss, ed = job
+        kex, sc, ss, ed = job[:4]
         victim = None if ed is None else ("server" if ed[2] == "c2s" else "client")
         case = {"kex": kex, "strict_client": sc, "strict_server": ss, "edit": ed}
-        ctx.case((kex, sc, ss, ed), ed is not None)
+        if len(job) > 4:
+            case["first_kex_packet_follows"] = {"claimed_by": job[4][0], "guess": job[4][1]}
+            ctx.dist("kex-follows:%s-guess" % job[4][1])
+        ctx.case(tuple(job), ed is not None)
         ctx.dist("edit:" + ("none" if ed is None else ed[0] + ":" + ("TYPE" if ed[1].startswith("TYPE:") else ed[1])))
         ctx.dist("strict:%d%d" % (sc, ss))
         if i % 37 == 0:
